@@ -124,7 +124,12 @@ def gen(rng):
             e["reuse_of"] = root
             e["interval_ms"], e["duration_ms"] = ev[root]["interval_ms"], ev[root]["duration_ms"]
         last_em = k
-    return {"station_id": rng.randrange(1, 1 << 32), "events": ev}
+    c = {"station_id": rng.randrange(1, 1 << 32), "events": ev}
+    if rng.random() < 0.3:
+        # the station's time of day is stepped forward while events repeat (first GNSS fix, NTP step): the repetition
+        # period is a duration, not a time of day
+        c["wall_steps"] = sorted((round(rng.uniform(0.1, 8.0), 3), rng.choice((0.35, 1.0, 3.0, 30.0))) for _ in range(rng.randrange(1, 3)))
+    return c
 
 
 def run_case(c, res):
@@ -138,11 +143,28 @@ def run_case(c, res):
     clock = VClock().install()
     ls = Lockstep(clock)
     saved_time, saved_threading = dtm.time, dtm.threading
-    dtm.time = types.SimpleNamespace(sleep=ls.sleep, time=clock.now)
+    wall_off = [0.0]
+    wall_log = [(float("-inf"), 0.0)]       # (virtual instant, offset of the time of day from then on)
+    wall = lambda: clock.t + wall_off[0]  # noqa: E731
+    from flexstack.utils import time_service as _ts
+    _ts.TimeService.time = staticmethod(wall)          # clock.uninstall() restores the original
+    dtm.time = types.SimpleNamespace(sleep=ls.sleep, time=wall)
     dtm.threading = types.SimpleNamespace(Thread=ls.thread_factory(), Lock=threading.Lock, RLock=threading.RLock)
     try:
         coder = DENMCoder()
         btp = RecBTP(clock)
+        steps = list(c.get("wall_steps") or ())
+
+        def run_to(t_end):
+            while steps and t_base + steps[0][0] <= t_end:
+                at_, d_ = steps.pop(0)
+                if not ls.run_until(t_base + at_):
+                    return False
+                wall_off[0] += d_
+                wall_log.append((clock.t, wall_off[0]))
+                res.count("time_of_day_steps")
+            return ls.run_until(t_end)
+
         vd = VehicleData(station_id=c["station_id"], station_type=10)
         tm = dtm.DENMTransmissionManagement(btp, coder, vd)
         den = types.SimpleNamespace(denm_transmission_management=tm)
@@ -152,7 +174,7 @@ def run_case(c, res):
         pos_hist = {}      # root event index -> [(virtual time, lat, lon)] positions the application put into the shared request
         ctx = {"scenario": c}
         for i, ev in enumerate(c["events"]):
-            if not ls.run_until(t_base + ev["at"]):
+            if not run_to(t_base + ev["at"]):
                 res.inconc("wall-clock watchdog while stepping the DENM repetition threads")
                 return
             n0 = len(btp.reqs)
@@ -174,7 +196,7 @@ def run_case(c, res):
                 else:
                     rp = ReferencePosition(latitude=int(ev["lat"] * 1e7), longitude=int(ev["lon"] * 1e7), position_confidence_ellipse=PositionConfidenceEllipse(4095, 4095, 3601),
                                            altitude=Altitude(800001, "unavailable"))
-                    tm.send_collision_risk_warning_denm(DENRequest.with_collision_risk_warning(TimestampIts(int((clock.t - 1072915200 + 5) * 1000)), rp))
+                    tm.send_collision_risk_warning_denm(DENRequest.with_collision_risk_warning(TimestampIts(int((wall() - 1072915200 + 5) * 1000)), rp))
             except Exception as e:  # noqa
                 res.violation(f"C17:den-request-raises-{type(e).__name__}[{ev['kind']}]", f"{e!r}", ctx)
                 return
@@ -185,7 +207,7 @@ def run_case(c, res):
                 res.inconc("could not attribute repetition threads to events")
                 return
         horizon = max([e["at"] + e["duration_ms"] / 1000.0 for e in c["events"]] + [0]) + 12.0
-        if not ls.run_until(t_base + horizon):
+        if not run_to(t_base + horizon):
             res.inconc("wall-clock watchdog while stepping the DENM repetition threads")
             return
         alive = [t for t in ls.threads if t.is_alive()]
@@ -239,8 +261,11 @@ def run_case(c, res):
                 if last_ref is not None and mg["referenceTime"] < last_ref:
                     res.violation("C17:reference-time-decreases", f"{last_ref} -> {mg['referenceTime']}", {**ctx, "event": ev})
                 last_ref = mg["referenceTime"]
-                want_ref = int((r["t"] - 1072915200 + 5) * 1000)
-                if abs(mg["referenceTime"] - want_ref) > 2:
+                offs = [o for (ts_, o) in wall_log if ts_ < r["t"] - 1e-9][-1]
+                at_step = [o for (ts_, o) in wall_log if abs(ts_ - r["t"]) <= 1e-9]      # stepped at this very instant: either side
+                want_refs = [int((r["t"] + o - 1072915200 + 5) * 1000) for o in [offs] + at_step]
+                want_ref = want_refs[0]
+                if min(abs(mg["referenceTime"] - w_) for w_ in want_refs) > 2:
                     res.violation("C17:reference-time-not-the-transmission-time", f"{mg['referenceTime']} vs {want_ref}", {**ctx, "event": ev})
                 rq = r["req"]
                 ep = mg["eventPosition"]
